@@ -689,8 +689,8 @@ pub fn run_dyn(case: &Case, cx: &mut Ctx) {
     use mmv_base::kinds::{Large, NoDrop, Plain, Str, Tagged, Tracked, ZstBoth, ZstKey, ZstVal};
     let n = mmv_base::capacity_of(case);
     match case.kind % mmv_base::case::NKINDS {
-        0 => mmv_base::by_cap!(run, Tracked, n, case, cx, [0, 1, 2, 3, 4, 6, 9, 17, 33, 70]),
-        1 => mmv_base::by_cap!(run, Plain, n, case, cx, [0, 1, 2, 3, 4, 6, 9, 17, 33, 70]),
+        0 => mmv_base::by_cap!(run, Tracked, n, case, cx, [0, 1, 2, 3, 4, 6, 9, 17, 32, 33, 64, 70]),
+        1 => mmv_base::by_cap!(run, Plain, n, case, cx, [0, 1, 2, 3, 4, 6, 9, 17, 32, 33, 64, 70]),
         2 => mmv_base::by_cap!(run, Str, n, case, cx, [0, 1, 2, 3, 4, 6]),
         3 => mmv_base::by_cap!(run, Large, n, case, cx, [0, 1, 2, 4]),
         4 => mmv_base::by_cap!(run, ZstKey, n, case, cx, [0, 1]),
